@@ -550,6 +550,23 @@ def corpus_pfiles():
     P.decl = {0: list(range(len(flds)))}
     out.append(('defaults', P))
     out.append(('nonfinite', finding_pfile('F12b')))
+    # helper options set on a message and inherited by messages nested three and four deep (no file-level option)
+    for variant in (0, 1):
+        P = PFile()
+        names = ['Outer', 'Mid', 'Leaf', 'Deep', 'Other', 'In', 'InIn', 'Plain', 'PlainIn']
+        msgs = [Msg(nm, [Field('v', 1, L_OPT, T_INT32), Field('s', 2, L_OPT, T_STRING)]) for nm in names]
+        P.sch = Schema(msgs, 2)
+        P.parent = {0: None, 1: 0, 2: 1, 3: 2, 4: None, 5: 4, 6: 5, 7: None, 8: 7}
+        P.infile = {i: 0 for i in range(len(names))}
+        P.decl = {i: [0, 1] for i in range(len(names))}
+        P.enums = [PEnumDef('Color', [('RED', 0)])]
+        if variant == 0:
+            P.msg_opts = {0: {'gen_pack_helpers': True}, 4: {'gen_pack_helpers': False}, 5: {'gen_pack_helpers': True},
+                          2: {'gen_init_helpers': False}}
+        else:
+            P.file_opts[0]['gen_pack_helpers'] = False
+            P.msg_opts = {1: {'gen_pack_helpers': True}, 4: {'gen_init_helpers': False}, 6: {'gen_init_helpers': True}}
+        out.append(('nesthelpers%d' % variant, P))
     return out
 
 
